@@ -142,7 +142,7 @@ class C05(fw.Prop):
             "counter 2^32; fault enumeration on the real primitive (validation of the idealisation): every single-bit flip and every truncation of N "
             "protected texts, every single-bit flip of key, authentication key, title, counter, security-control byte - removal must raise, also through the APDU object (fresh and "
             "re-used after a successful removal) and the connection; texts made outside the library under nonces from titles of 0..16 bytes; plaintexts whose "
-            "protected text begins like a header (security control || counter, tag and title); single AES blocks against the package's ECB mode; non-trivial = distinct input")
+            "protected text begins like a header (security control || counter, tag and title); single AES blocks against the package's ECB mode; titles spelled as text (hex digits, blanks, length byte), the title as a bytearray (unchanged afterwards, same answer twice), security-control bytes re-parsed after the first result was overwritten; non-trivial = distinct input")
     trusted_base = ["Spec.Aes / Spec.Gcm are FIPS 197 / SP 800-38D / RFC 3394 as I wrote them down (validated by the standard vectors and against the `cryptography` package)",
                     "extract.py (key-length table, tag length)", "the ideal-AEAD abstraction for 'every tampering is detected' (DESIGN.md §5b)",
                     "the meter's side of the connection-level harnesses uses harness/refcrypto.py (the same construction written straight on the `cryptography` primitives), not dlms_cosem.security"]
